@@ -38,6 +38,11 @@ func ResolveRef(root interface{}, ref *Ref) (*Schema, error) {
 		return nil, err
 	}
 
+	if isAbsent(res) {
+		// on a typed root, the pointer may land on a member that is not set
+		return nil, fmt.Errorf("JSON pointer %q designates nothing: %w", ref.GetPointer().String(), ErrSpec)
+	}
+
 	switch sch := res.(type) {
 	case Schema:
 		return &sch, nil
